@@ -161,6 +161,8 @@ def bounded(tier, seed):
                 path = sim.sympath(name if rng.random() < 0.7 else name.lower(), idx) if op == 'read_tag' else numpath(*addr[name], elem=idx)
                 d = sim.request(lx, service=0x4c, path=path, read_tag={'elements': cnt})
                 got = list(d.read_tag.data) if d.status in (0, 6) else None
+                if got is not None and T == 'BOOL':
+                    got = [bool(x) for x in got]
                 ok = got is not None and len(got) >= 1 and got == model[name][idx:idx + len(got)] and d.read_tag.type == CODE[T] \
                     and (d.status == 6 or len(got) == cnt)
                 want = 'elements %r of type 0x%x' % (model[name][idx:idx + cnt], CODE[T])
@@ -170,7 +172,7 @@ def bounded(tier, seed):
                     d = sim.read_frag(lx, name, idx, cnt, off)
                     if d.status not in (0, 6):
                         break
-                    got += list(d.read_frag.data)
+                    got += [bool(x) for x in d.read_frag.data] if T == 'BOOL' else list(d.read_frag.data)
                     off = len(got) * SIZ[T]
                     if d.status == 0:
                         break
@@ -199,11 +201,14 @@ def bounded(tier, seed):
             elif op == 'set_single':
                 vals = [rand_value(rng, T) for _ in range(n)]
                 if T == 'BOOL':
-                    vals = [int(v) for v in vals]
+                    # the octets a client may send for a BOOL: 0x00, and any non-zero octet (0x01, the customary 0xFF, ...) for True
+                    vals = [rng.choice([1, 0xFF, 0x80, 2]) if v else 0 for v in vals]
                 raw = list(b''.join(struct.pack(FMT[T], v) for v in vals))
                 d = sim.request(lx, service=0x10, path=numpath(*addr[name]), set_attribute_single={'data': raw})
                 if d.status == 0:
                     model[name] = [struct.unpack(FMT[T], struct.pack(FMT[T], v))[0] for v in vals]
+                    if T == 'BOOL':
+                        model[name] = [bool(v) for v in vals]
                 ok = d.status == 0
                 want = 'set attribute single acknowledged'
             # after every request: every tag equals the array model (a write changes only the addressed elements)
@@ -220,6 +225,29 @@ def bounded(tier, seed):
                 if len(violations) >= 5:
                     break
                 model = dict((k, list(v)) for k, v in actual.items())
+    # a Read Tag (unfragmented) of more than the reply budget holds: status 0x06 with the leading elements and the tag's type, as a request record and on the wire
+    for T in types:
+        for wiremode in (False, True):
+            if len(violations) >= 8:
+                break
+            sim.WIRE = wiremode
+            n = 6
+            lx = sim.fresh({'A': (T, n)}, max_bytes=rng.choice([8, 16]))
+            vals = [rand_value(rng, T) for _ in range(n)]
+            for k, v in enumerate(vals):
+                sim.write_tag(lx, 'A', k, 1, CODE[T], [v])
+            for idx, cnt in ((0, n), (1, n - 1), (n - 1, 1), (0, 1)):
+                ev += 1
+                distinct.add(('oversize', T, wiremode, idx, cnt))
+                d = sim.read_tag(lx, 'A', idx, cnt)
+                got = list(d.read_tag.data) if d.status in (0, 6) and 'read_tag' in d and 'data' in d.read_tag else None
+                if got is not None and T == 'BOOL':
+                    got = [bool(x) for x in got]
+                ok = got is not None and len(got) >= 1 and got == vals[idx:idx + len(got)] and d.read_tag.get('type') == CODE[T] and (d.status == 6 or len(got) == cnt)
+                if not ok:
+                    violations.append(dict(key='Read Tag A[%d] x%d of a %s tag with a small reply budget (%s)' % (idx, cnt, T, 'on the wire' if wiremode else 'as a request record'),
+                                           observed='status %r type %r data %r %s' % (d.status, d.get('read_tag.type'), got, d.get('unparsable', d.get('raised', ''))),
+                                           required='status 0x00 / 0x06 with the leading elements of %r and type 0x%x' % (vals[idx:idx + cnt], CODE[T])))
     # symbol table: k auto-allocated tags keep k distinct attributes (no aliasing), names are case-insensitive
     # in ISO-8859-1 and otherwise distinct
     sim.WIRE = False
